@@ -181,7 +181,15 @@ theorem default_validates (ir : IR) (hok : ir.ok = true) (j : J) (h : emit ir = 
     simpa [keyOf, lookup_default] using hd
   exact validates_default np.2 hpo d hd'
 
-/-- non-vacuity: a Literal with a member default, and a default that would *not* validate -/
+/-- non-vacuity of the hypotheses: `sample` (below, at `roundtrip`) is in the domain, is emitted, and its Literal
+    property carries a default -/
+example : (js!"d", (emitProp { typ := ⟨true, .lit [js!"x_1", js!"b2", js!"alpha"]⟩, default := some (.str js!"b2") }).1) ∈
+      propertiesOf (emitT { name := none, doc := [], returns := none, params :=
+        [(js!"d", { typ := ⟨true, .lit [js!"x_1", js!"b2", js!"alpha"]⟩, default := some (.str js!"b2") })] }) ∧
+    keyOf js!"default" (emitProp { typ := ⟨true, .lit [js!"x_1", js!"b2", js!"alpha"]⟩, default := some (.str js!"b2") }).1
+      = some (.str js!"b2") := by decide
+
+/-- a Literal with a member default validates, a default of the wrong type would *not* -/
 example : validates (emitProp { typ := ⟨false, .lit [js!"b2", js!"x_1"]⟩, default := some (.str js!"x_1") }).1 (.str js!"x_1") = true := by decide
 example : validates (emitProp { typ := ⟨false, .base .int⟩ }).1 (.str js!"x") = false := by decide
 
@@ -202,6 +210,11 @@ def pattern_exact_full : Prop :=
 theorem pattern_accepts_iff_contains_member (ms : List Str) (s : Str) (hne : ms ≠ []) (hok : ms.all memberOk = true) :
     patAccepts (patternOf ms) s = true ↔ ∃ m ∈ ms, isInfix m s = true :=
   patAccepts_patternOf ms hne hok s
+
+/-- non-vacuity: members with digits and underscores satisfy the hypotheses; a non-member containing no member is rejected -/
+example : [js!"alpha", js!"b2", js!"x_1", js!"007"] ≠ [] ∧ [js!"alpha", js!"b2", js!"x_1", js!"007"].all memberOk = true ∧
+    patAccepts (patternOf [js!"alpha", js!"b2", js!"x_1", js!"007"]) js!"x_1" = true ∧
+    patAccepts (patternOf [js!"alpha", js!"b2", js!"x_1", js!"007"]) js!"x_2" = false := by decide
 
 /-- partial: every member is accepted -/
 theorem pattern_accepts_members (ms : List Str) (m : Str) (hok : ms.all memberOk = true) (hm : m ∈ ms) :
